@@ -765,7 +765,7 @@ theorem Att.step {s : St} (i : In) (a : Att s) : Att (step s i).1 := by
       · exact a.of4 (SameAtt.of_tables rfl rfl) rfl rfl rfl rfl
       · split
         · exact a.of4 (SameAtt.of_tables rfl rfl) rfl rfl rfl rfl
-        · exact a
+        · exact a.of4 (SameAtt.of_tables rfl rfl) rfl rfl rfl rfl
   | viaLost addr port =>
     simp only [TxV.TorState.step]
     split
